@@ -1638,17 +1638,25 @@ class OP4:
         colHeader = struct.Struct(endian + "4i")
         colTrailer = struct.Struct(endian + "i")
 
+        # L + 1 is stored in the upper half of a signed 32-bit word, so
+        # longer strings are split:
+        maxlen = 32766 // (2 * multiplier)
+
         def _write_col_header(f, ind, c, multiplier, colHeader):
-            nwords = ind.shape[0] + 2 * sum(ind[:, 1]) * multiplier
+            nstrings = sum(-(-ind[:, 1] // maxlen))
+            nwords = nstrings + 2 * sum(ind[:, 1]) * multiplier
             reclen = (3 + nwords) * 4
             f.write(colHeader.pack(reclen, c + 1, 0, nwords))
             return reclen
 
         def _write_data_string(f, string, r0, r1, multiplier, colTrailer, endian):
-            L = r1 * 2 * multiplier
-            IS = (r0 + 1) + ((L + 1) << 16)
-            f.write(colTrailer.pack(IS))
-            f.write(struct.pack(endian + ("%dd" % len(string)), *string))
+            for i in range(0, r1, maxlen):
+                n = min(maxlen, r1 - i)
+                L = n * 2 * multiplier
+                IS = (r0 + i + 1) + ((L + 1) << 16)
+                f.write(colTrailer.pack(IS))
+                part = string[i * multiplier : (i + n) * multiplier]
+                f.write(struct.pack(endian + ("%dd" % len(part)), *part))
 
         OP4._write_binary_sparse(
             f,
